@@ -189,7 +189,7 @@ class Fam:
                     name, (" + " + macro) if macro else "")
                 f["args"] = 2
             elif kind == "sswitch":
-                n = rng.weighted([(1, 1), (2, 2), (3, 3), (5, 3), (9, 3), (17, 2), (40, 1)])
+                n = rng.weighted([(1, 4), (2, 8), (3, 12), (5, 12), (9, 12), (17, 8), (40, 4), (130, 1), (257, 1), (270, 1)])
                 labels = []
                 while len(labels) < n:
                     l = self.label()
@@ -365,7 +365,8 @@ def sys_case(rng, cid, steps=None, nprog=None, big=False, script=None):
         script = []
         for _ in range(nsteps):
             script.append(rng.weighted([("nothing", 6), ("edit-src", 3), ("edit-inc", 3), ("touch-inh", 2), ("touch-src", 2),
-                                        ("touch-inc", 1), ("simul-restart", 2), ("restart", 1), ("equal-inc", 1)]))
+                                        ("touch-inc", 1), ("simul-restart", 2), ("restart", 1), ("equal-inc", 1),
+                                        ("simul-norestart", 1), ("edit-parent-inc", 2)]))
     for act in script:
         t += 1
         if act == "edit-src":
@@ -393,6 +394,14 @@ def sys_case(rng, cid, steps=None, nprog=None, big=False, script=None):
             L.append("restart " + " ".join(objs))
         elif act == "simul-norestart":
             L.append("mtime /simul_efun.c %d" % t)
+        elif act == "edit-parent-inc":
+            # a header that a parent includes and the top does not (if there is one)
+            cand = [nm for i in range(1, len(fam.progs)) for nm in fam.progs[i]["inc"] if nm not in fam.progs[0]["inc"]]
+            if cand:
+                nm = rng.choice(cand)
+                fam.incs[nm]["k"] += 1
+                L.append("file /%s %s" % (fam.inc_path(nm), hx(fam.inc_text(nm))))
+                L.append("mtime /%s %d" % (fam.inc_path(nm), t))
         elif act == "restart":
             L.append("restart " + " ".join(objs))
         reload()
@@ -436,6 +445,11 @@ def boundary():
                                 ["edit-src", "nothing", "restart"]]):
         B.append(sys_case(E.Rng(4000 + k), "b%d" % k, nprog=3, script=script))
         B[-1].id = "b-sys-" + "-".join(script)
+    for k, script in enumerate([["edit-parent-inc"], ["edit-parent-inc", "nothing", "edit-parent-inc"],                                 ["simul-norestart", "nothing"]]):
+        for seed in (5000, 5001, 5002):
+            c = sys_case(E.Rng(seed + 10 * k), "p%d_%d" % (k, seed), nprog=3, script=script)
+            c.id = "b-sys-%d-" % seed + "-".join(script)
+            B.append(c)
     big = sys_case(E.Rng(77), "bbig", nprog=1, big=True, script=["nothing"])
     big.id = "b-sys-switch-beyond-32k"
     B.append(big)
